@@ -442,6 +442,52 @@ fn kv_mode(inputs: &[Value], seed: u64, si: usize, sn: usize, out: &mut TraceOut
                              "recv": bj(&recv), "ending": ending, "store": store}));
             n += 1;
         }
+        // the same requests through the repository's own client library (net::Client), one call at a time;
+        // its results are written back in the reply encoding so that the same judge applies
+        if keys.iter().all(|k| std::str::from_utf8(k).is_ok()) {
+            pend.set(&json!({"ev": "kv", "reqs": inp["reqs"], "how": "client", "phase": "run"}));
+            let sc = Scratch::new("net");
+            let kv = open_real_store(sc.path(), 120);
+            let h = kv.get_handle();
+            let srv = start_server(h.clone(), 8);
+            let rt = tokio::runtime::Builder::new_current_thread().enable_all().build().unwrap();
+            let addr = srv.addr;
+            let reqs2: Vec<Value> = reqs.clone();
+            let (recv, ending): (Vec<u8>, String) = rt.block_on(async move {
+                let mut recv = vec![];
+                let mut c = match tokio::time::timeout(Duration::from_secs(3), bitcask::net::Client::connect(addr)).await {
+                    Ok(Ok(c)) => c,
+                    _ => return (recv, "connect-failed".to_string()),
+                };
+                for r in &reqs2 {
+                    let s = |v: &Value| String::from_utf8(jb(v)).unwrap();
+                    let one = async {
+                        match r["op"].as_str().unwrap_or("") {
+                            "set" => c.set(s(&r["k"]), Bytes::from(jb(&r["v"]))).await.map(|_| b"+OK\r\n".to_vec()),
+                            "get" => c.get(s(&r["k"])).await.map(|v| match v {
+                                Some(b) => bulk(&b),
+                                None => b"$-1\r\n".to_vec(),
+                            }),
+                            _ => c.del(r["ks"].as_array().unwrap().iter().map(|k| s(k)).collect()).await.map(|n| format!(":{n}\r\n").into_bytes()),
+                        }
+                    };
+                    match tokio::time::timeout(Duration::from_secs(3), one).await {
+                        Ok(Ok(b)) => recv.extend(b),
+                        Ok(Err(e)) => return (recv, format!("client-error: {e}")),
+                        Err(_) => return (recv, "timeout".to_string()),
+                    }
+                }
+                (recv, "ok".to_string())
+            });
+            drop(rt);
+            let store = store_contents(&h, &keys);
+            srv.stop();
+            drop(kv);
+            pend.clear();
+            out.emit(&json!({"ev": "kv", "reqs": inp["reqs"], "how": "client", "nsegs": reqs.len(), "sent_segments": reqs.len(),
+                             "recv": bj(&recv), "ending": ending, "store": store}));
+            n += 1;
+        }
         for (how, segs, first_replies) in wait_plans {
             pend.set(&json!({"ev": "kv", "reqs": inp["reqs"], "how": how, "phase": "run"}));
             let sc = Scratch::new("net");
